@@ -6,6 +6,7 @@ pub mod guard;
 pub mod par;
 pub mod ctx;
 pub mod alloc_mon;
+pub mod miri;
 
 pub use ctx::{Ctx, Tier};
 pub use guard::{guard, PanicInfo};
